@@ -7,6 +7,7 @@ import (
 	"fmt"
 	"go/token"
 	"go/types"
+	"os"
 	"strings"
 
 	"golang.org/x/tools/go/ssa"
@@ -465,6 +466,7 @@ func ruleXZWriterFormat(c *Ctx, r *Report, prefix string) {
 		}
 		r.Check(ok, rule, "putUvarint", c.Pos(putUvarint.Pos()), "multibyte integer encoding (7 bits per byte, little-endian, continuation bit)", "putUvarint does not produce the .xz variable-length integer encoding")
 	}
+	varintEncoders := map[*ssa.Function]bool{putUvarint: true}
 	// any other encoder of this kind in the package (a function that shifts a uint64 right by 7:
 	// an append-style sibling of putUvarint) must produce the same encoding
 	for _, fn := range c.modFuncs {
@@ -538,6 +540,9 @@ func ruleXZWriterFormat(c *Ctx, r *Report, prefix string) {
 			}
 		}
 		r.Check(ok, rule, "uvarint-encoder:"+FnName(fn), c.Pos(fn.Pos()), "produces the .xz multibyte integer encoding on the boundary values", why)
+		if ok {
+			varintEncoders[fn] = true
+		}
 	}
 	// header / footer / block header CRC coverage on the marshal side
 	crcPut := func(fn *ssa.Function, fed role, dst role) bool {
@@ -608,6 +613,17 @@ func ruleXZWriterFormat(c *Ctx, r *Report, prefix string) {
 				}
 				dst, ok1 := sliceRefOf(call.Call.Args[0])
 				sc, isS := call.Call.Args[1].(*ssa.Call)
+				// the one-shot form over an appended buffer: n := len(data); data = append(data, 0, 0, 0, 0);
+				// putUint32LE(data[n:], crc32.ChecksumIEEE(data[:n]))
+				if ok1 && isS && stdCalleeName(sc) == "hash/crc32.ChecksumIEEE" {
+					src, ok2 := sliceRefOf(sc.Call.Args[0])
+					if ok2 && src.root == dst.root && src.lo == 0 && src.hi == -2 && dst.lo == -1 && dst.hi == -1 && sameValDeep(src.symHi, dst.symLo) {
+						if roleBinOp(token.SUB, roleLenOf(roleIs(stripConv(src.root))), roleConst(4))(src.symHi) || lenBeforeAppend4(src.symHi, src.root) {
+							ok = true
+						}
+					}
+					continue
+				}
 				if !ok1 || !isS || !sc.Call.IsInvoke() || sc.Call.Method.Name() != "Sum32" {
 					continue
 				}
@@ -647,7 +663,7 @@ func ruleXZWriterFormat(c *Ctx, r *Report, prefix string) {
 		flagOK := map[string]bool{}
 		for _, b := range theCtx.GB(fn) {
 			for _, ins := range b.Instrs {
-				if call, isC := callTo(ins, putUvarint); isC && b.Parent() == fn {
+				if call, isC := ins.(*ssa.Call); isC && b.Parent() == fn && call.Call.StaticCallee() != nil && varintEncoders[call.Call.StaticCallee()] && len(call.Call.Args) == 2 {
 					switch {
 					case roleFieldLoad(fC)(call.Call.Args[1]):
 						order = append(order, "c@"+fmt.Sprint(call.Pos()))
@@ -657,14 +673,14 @@ func ruleXZWriterFormat(c *Ctx, r *Report, prefix string) {
 				}
 				// a new helper that encodes one of its parameters with putUvarint, called once per field
 				if call, isC := ins.(*ssa.Call); isC && b.Parent() == fn {
-					if hp := call.Call.StaticCallee(); hp != nil && theCtx.IsNew(hp) {
+					if hp := call.Call.StaticCallee(); hp != nil && theCtx.IsNew(hp) && !varintEncoders[hp] {
 						for _, hb := range hp.Blocks {
 							for _, hi := range hb.Instrs {
-								pc, isP := callTo(hi, putUvarint)
-								if !isP {
+								pc, isP := hi.(*ssa.Call)
+								if !isP || pc.Call.StaticCallee() == nil || !varintEncoders[pc.Call.StaticCallee()] || len(pc.Call.Args) != 2 {
 									continue
 								}
-								prm, isPrm := stripConv(pc.Call.Args[1]).(*ssa.Parameter)
+								prm, isPrm := stripConvNoLook(pc.Call.Args[1]).(*ssa.Parameter)
 								if !isPrm {
 									continue
 								}
@@ -701,6 +717,9 @@ func ruleXZWriterFormat(c *Ctx, r *Report, prefix string) {
 				}
 			}
 		}
+		if os.Getenv("XZV_TRACE") != "" {
+			fmt.Println("blockheader-sizes order", order, "flagOK", flagOK)
+		}
 		okOrder := len(order) == 2 && strings.HasPrefix(order[0], "c@") && strings.HasPrefix(order[1], "u@") && order[0][2:] < order[1][2:] || (len(order) == 2 && order[0][0] == 'c' && order[1][0] == 'u')
 		r.Check(okOrder && flagOK["c"] && flagOK["u"], rule, "blockheader-sizes:"+FnName(fn), c.Pos(fn.Pos()), "flag 0x40 <-> compressed size (first), flag 0x80 <-> uncompressed size (second)",
 			"blockHeader.MarshalBinary does not write compressed size (flag 0x40) before uncompressed size (flag 0x80)")
@@ -712,7 +731,22 @@ func ruleXZWriterFormat(c *Ctx, r *Report, prefix string) {
 		spec := SeqSpec{Fn: fn, NoMerge: true}
 		spec.Event = func(w *Walker, p *PState, ins ssa.Instruction) string {
 			call, isC := ins.(*ssa.Call)
-			if !isC || !call.Call.IsInvoke() {
+			if !isC {
+				return ""
+			}
+			if !call.Call.IsInvoke() {
+				// a running CRC kept by hand: crc = crc32.Update(crc, crc32.IEEETable, p) next to the write of p
+				if stdCalleeName(call) == "hash/crc32.Update" && len(call.Call.Args) == 3 {
+					if ld, isLd := call.Call.Args[1].(*ssa.UnOp); isLd {
+						if g, isG := ld.X.(*ssa.Global); isG && g.Name() == "IEEETable" {
+							return "upd"
+						}
+					}
+					return "other"
+				}
+				if call.Call.StaticCallee() == putLE32 {
+					return "put"
+				}
 				return ""
 			}
 			switch call.Call.Method.Name() {
@@ -736,13 +770,53 @@ func ruleXZWriterFormat(c *Ctx, r *Report, prefix string) {
 		paths, over := CollectPaths(c, spec)
 		okOrder, nOK, mwWrites, wWrites := !over, 0, 0, 0
 		for _, sp := range paths {
-			if sp.ErrNonNil && !sp.Has("sum") {
+			// normal form of the event word: a plain write directly followed by the CRC update of the same
+			// call is a write through the CRC ("mw"); without a hash object the CRC is taken where it is encoded
+			var l []string
+			raw := sp.Labels()
+			for i := 0; i < len(raw); i++ {
+				switch {
+				case raw[i] == "w" && i+1 < len(raw) && raw[i+1] == "upd":
+					l = append(l, "mw")
+					i++
+				case raw[i] == "upd":
+					l = append(l, "other")
+				default:
+					l = append(l, raw[i])
+				}
+			}
+			hasSum := false
+			for _, x := range l {
+				if x == "sum" {
+					hasSum = true
+				}
+			}
+			var l2 []string
+			for _, x := range l {
+				if x == "put" {
+					if !hasSum {
+						l2 = append(l2, "sum")
+						hasSum = true
+					}
+					continue
+				}
+				l2 = append(l2, x)
+			}
+			l = l2
+			is, nsum := -1, 0
+			for i, x := range l {
+				if x == "sum" {
+					if is < 0 {
+						is = i
+					}
+					nsum++
+				}
+			}
+			if sp.ErrNonNil && is < 0 {
 				continue // an early error return
 			}
 			nOK++
-			l := sp.Labels()
-			is := sp.Index("sum")
-			if is < 0 || sp.Count("sum") != 1 {
+			if is < 0 || nsum != 1 {
 				okOrder = false
 				continue
 			}
@@ -922,4 +996,36 @@ func sameValDeep(a, b ssa.Value) bool {
 		return ok1 && ok2 && bx.Name() == by.Name() && bx.Name() == "len" && sameValDeep(x.Call.Args[0], y.Call.Args[0])
 	}
 	return false
+}
+
+// lenBeforeAppend4: n is len(prev) and root is append(prev, <four bytes>): n = len(root) - 4.
+func lenBeforeAppend4(n, root ssa.Value) bool {
+	lc, ok := stripConvNoLook(n).(*ssa.Call)
+	if !ok {
+		return false
+	}
+	if bi, isB := lc.Call.Value.(*ssa.Builtin); !isB || bi.Name() != "len" {
+		return false
+	}
+	ac, ok := stripConvNoLook(root).(*ssa.Call)
+	if !ok {
+		return false
+	}
+	if bi, isB := ac.Call.Value.(*ssa.Builtin); !isB || bi.Name() != "append" || len(ac.Call.Args) != 2 {
+		return false
+	}
+	if !sameValDeep(ac.Call.Args[0], lc.Call.Args[0]) {
+		return false
+	}
+	// the appended elements: a varargs array of 4
+	sl, ok := ac.Call.Args[1].(*ssa.Slice)
+	if !ok {
+		return false
+	}
+	al, ok := sl.X.(*ssa.Alloc)
+	if !ok {
+		return false
+	}
+	at, ok := al.Type().(*types.Pointer).Elem().Underlying().(*types.Array)
+	return ok && at.Len() == 4 && sl.Low == nil && sl.High == nil
 }
